@@ -589,8 +589,8 @@ def namesMap (ns : List (Nat × List Nat)) : List (Nat × List Nat) :=
 
 /-- What reading `encode m e f` yields: items in file order; a thread with an empty stack has no
     stack memory; modules with a "bad image size" (0, or reaching past 2^64-1) are skipped by the
-    module list; the 32-bit memory list skips empty regions, the 64-bit list keeps them; thread
-    names are a map by thread id (last wins). -/
+    module list, while ONE such entry fails the whole unloaded-module list; the 32-bit memory list
+    skips empty regions, the 64-bit list keeps them; thread names are a map by thread id (last wins). -/
 def report (m : DumpModel) (e : Endian) (f : MemForm) : Reported :=
   { endian := e, flags := m.flags,
     threads := .ok (m.threads.map reportThread),
@@ -600,7 +600,8 @@ def report (m : DumpModel) (e : Endian) (f : MemForm) : Reported :=
       | .mem64 => m.memory),
     memInfo := .ok m.memInfo,
     threadNames := .ok (namesMap m.threadNames),
-    unloaded := .ok m.unloaded,
+    unloaded := if m.unloaded.any (fun u => badImageSize u.base u.size) then .error .ModuleReadFailure
+      else .ok m.unloaded,
     exception := match m.exception with
       | none => .error .StreamNotFound
       | some x => .ok { threadId := x.threadId, code := x.code, flags := x.flags, record := x.record,
@@ -674,9 +675,10 @@ def hexBytes (dig : Nat → Char) (bs : List UInt8) : List Char :=
 def uuidFromFields (d1 d2 d3 : Nat) (d4 : List UInt8) : List UInt8 :=
   encNat .big 4 d1 ++ encNat .big 2 d2 ++ encNat .big 2 d3 ++ d4
 
-/-- `DebugId::breakpad()`: 32 upper-case hex digits of the UUID, then the age in upper-case hex -/
+/-- `DebugId::breakpad()` of a UUID-based id (`"{:X}{:x}"`): 32 upper-case hex digits of the UUID,
+    then the age in lower-case hex without padding -/
 def breakpadId (uuid : List UInt8) (age : Nat) : String :=
-  String.ofList (hexBytes hexDigitUpper uuid ++ hexMin hexDigitUpper age)
+  String.ofList (hexBytes hexDigitUpper uuid ++ hexMin hexDigitLower age)
 
 def allZero (bs : List UInt8) : Bool := bs.all (· == 0)
 
@@ -687,8 +689,8 @@ def debugId (e : Endian) : MCv → Option String
     let u := uuidFromFields d1 d2 d3 d4
     if allZero u then none else some (breakpadId u age)
   | .pdb20 _ sig age _ =>
-    -- `DebugId::from_pdb20(timestamp, age)`: Uuid::from_fields(timestamp, 0, 0, [0; 8])
-    some (breakpadId (uuidFromFields sig 0 0 [0, 0, 0, 0, 0, 0, 0, 0]) age)
+    -- `DebugId::from_pdb20(timestamp, age)`, whose breakpad form is `"{:08X}{:x}"`
+    some (String.ofList (hexPad hexDigitUpper 8 sig ++ hexMin hexDigitLower age))
   | .elf bid =>
     if allZero bid then none else
     let g := (bid ++ List.replicate (16 - bid.length) 0).take 16
@@ -698,18 +700,19 @@ def debugId (e : Endian) : MCv → Option String
     some (breakpadId (uuidFromFields d1 d2 d3 (g.drop 8)) 0)
   | .unknown _ _ => none
 
-/-- `"{0:08X}{1:x}"` of time_date_stamp and size_of_image -/
+/-- `CodeId::new(format!("{0:08X}{1:x}", time_date_stamp, size_of_image))`; `CodeId::new` keeps the
+    hex digits and lower-cases them -/
 def timeSizeId (time size : Nat) : String :=
-  String.ofList (hexPad hexDigitUpper 8 time ++ hexMin hexDigitLower size)
+  String.ofList (hexPad hexDigitLower 8 time ++ hexMin hexDigitLower size)
 
 /-- `code_identifier` [1085] -/
 def codeId (os : Os) (m : MModule) : Option String :=
   match m.cv with
   | some (.pdb70 d1 d2 d3 d4 _ _) =>
     if os = .macos ∨ os = .ios then
-      -- `format!("{:#}", guid)`: upper-case hex without dashes
-      some (String.ofList (hexPad hexDigitUpper 8 d1 ++ hexPad hexDigitUpper 4 d2 ++ hexPad hexDigitUpper 4 d3 ++
-        hexBytes hexDigitUpper d4))
+      -- `CodeId::new(format!("{:#}", guid))`: hex without dashes, lower-cased by `CodeId::new`
+      some (String.ofList (hexPad hexDigitLower 8 d1 ++ hexPad hexDigitLower 4 d2 ++ hexPad hexDigitLower 4 d3 ++
+        hexBytes hexDigitLower d4))
     else some (timeSizeId m.time m.size)
   | some (.pdb20 ..) => some (timeSizeId m.time m.size)
   | some (.elf bid) => if allZero bid then none else some (String.ofList (hexBytes hexDigitLower bid))
@@ -720,12 +723,22 @@ def codeId (os : Os) (m : MModule) : Option String :=
     UTF-8. UTF-8 validity is not modelled: the bytes are returned. -/
 def bytesToNul (bs : List UInt8) : List UInt8 := bs.takeWhile (· != 0)
 
-/-- `debug_file` [1130] as bytes (`elf`: the module name, as UTF-8 — here as scalar values) -/
-def debugFile (m : MModule) : Option (List Nat) :=
+/-- UTF-8 encoding of a scalar value (Rust `String`s are UTF-8) -/
+def utf8Encode (c : Nat) : List UInt8 :=
+  if c < 0x80 then [UInt8.ofNat c]
+  else if c < 0x800 then [UInt8.ofNat (0xC0 + c / 64), UInt8.ofNat (0x80 + c % 64)]
+  else if c < 0x10000 then [UInt8.ofNat (0xE0 + c / 4096), UInt8.ofNat (0x80 + c / 64 % 64), UInt8.ofNat (0x80 + c % 64)]
+  else [UInt8.ofNat (0xF0 + c / 262144), UInt8.ofNat (0x80 + c / 4096 % 64), UInt8.ofNat (0x80 + c / 64 % 64),
+        UInt8.ofNat (0x80 + c % 64)]
+
+/-- `debug_file` [1130] as the UTF-8 bytes of the returned string (`elf`: the module's own name).
+    For a PDB record whose file name is not UTF-8 the code returns `None`; that case is not
+    modelled (the bytes are returned). -/
+def debugFile (m : MModule) : Option (List UInt8) :=
   match m.cv with
-  | some (.pdb70 _ _ _ _ _ file) => some ((bytesToNul file).map (·.toNat))
-  | some (.pdb20 _ _ _ file) => some ((bytesToNul file).map (·.toNat))
-  | some (.elf _) => some m.name
+  | some (.pdb70 _ _ _ _ _ file) => some (bytesToNul file)
+  | some (.pdb20 _ _ _ file) => some (bytesToNul file)
+  | some (.elf _) => some (m.name.flatMap utf8Encode)
   | _ => none
 
 /-- `version` [1142] -/
@@ -904,7 +917,7 @@ def showModule (e : Endian) (os : Os) (m : MModule) : String :=
     | some cv => debugId e cv
   let df := match debugFile m with
     | none => "~"
-    | some n => showName n
+    | some n => Proto.hex n
   s!"{m.base},{m.size},{m.checksum},{m.time},{showNats m.ver},{showName m.name},{showCv m.cv}" ++
   s!",did={showOptStr did},cid={showOptStr (codeId os m)},df={df},ver={showOptStr (version os m)}"
 
